@@ -39,6 +39,20 @@ func checkParse(input []byte) {
 	V.Assert(bytes.Equal(buf.Bytes(), input), "parse then marshal is not the identity on the input bytes")
 }
 
+var fieldClass = func() (t [256]bool) {
+	for i := range t {
+		t[i] = i != '\n' && i != ' '
+	}
+	return
+}()
+
+var printable = func() (t [256]bool) {
+	for i := 33; i <= 126; i++ {
+		t[i] = true
+	}
+	return
+}()
+
 // field returns n symbolic bytes that are neither LF nor space, except at
 // `wild` positions (chosen symbolically) where any byte value is allowed.
 func field(name string, n, wild int) []byte {
@@ -55,7 +69,7 @@ func field(name string, n, wild int) []byte {
 	}
 	for i, c := range b {
 		if i != w1 && i != w2 {
-			V.Assume(c != '\n' && c != ' ')
+			V.Assume(fieldClass[c])
 		}
 	}
 	return b
@@ -156,14 +170,14 @@ func Harness_C07_marshal_parse() {
 		tl := V.Int("typelen"+id, 1, 2)
 		tb := V.Bytes("type"+id, tl)
 		for _, c := range tb {
-			V.Assume(c >= 33 && c <= 126)
+			V.Assume(printable[c])
 		}
 		s.Type = string(tb)
 		na := V.Int("nargs"+id, 0, 2)
 		for j := 0; j < na; j++ {
 			ab := V.Bytes("arg"+id+string(rune('a'+j)), V.Int("arglen"+id+string(rune('a'+j)), 1, 2))
 			for _, c := range ab {
-				V.Assume(c >= 33 && c <= 126)
+				V.Assume(printable[c])
 			}
 			s.Args = append(s.Args, string(ab))
 		}
